@@ -99,6 +99,8 @@ pub struct Scope {
 #[derive(Debug)]
 pub enum ScopeKind {
     Root,
+    // the body of an `if` branch or of a group `let`: local variables end with it
+    Block,
     Record(RecordId),
     Foreach(EcoString, VariableId),
     Defset(DefsetId),
